@@ -549,10 +549,13 @@ package parser
 //@   loop 1 invariant 0 <= i && ParInv(p) && PFrame(p) && MuLe(p) && (old(p.current.Type) == TokenDate ==> MuLt(p))
 //@   loop 1 decreases len(value) - i
 
+// A parsed amount never carries a decimal exponent outside +-1000: exact arithmetic on it (sums, negation, comparison)
+// costs time bounded by the length of the number text plus that constant (C06: extreme exponents).
 //@ func (*Parser).parseAmount
 //@   props C06
 //@   requires ParInv(p)
 //@   ensures [inv] ParInv(p) && PFrame(p) && MuLe(p)
+//@   ensures [C06:exponent_bounded] result != nil ==> 0 - 1000 <= expo && expo <= 1000
 //@   modifies p.current, p.errors, p.defaultYear, p.lexer.pos, p.lexer.column, p.lexer.line, p.lexer.atStart
 
 //@ func (*Parser).parseCost
